@@ -367,9 +367,19 @@ def check_read(res, name):
         rows, exp = READ_CASES[name]
         t = _tbl(rows, component=list(range(11, 11 + len(rows))) if name == 'excl_mixed' else None)
     try:
+        tfp = FP.fp(t)
         with warnings.catch_warnings(record=True) as w:
             warnings.simplefilter('always')
             P = list(Regions.parse(t, format='fits'))
+        # the table is the caller's: parsing leaves it as it was, and parsing it again gives the same regions
+        with warnings.catch_warnings():
+            warnings.simplefilter('ignore')
+            Pagain = list(Regions.parse(t, format='fits'))
+        if FP.fp(t) != tfp:
+            res.violation(ID, 'parse_mutates_table', case, f'{name}: parsing changed the caller\'s table')
+        if len(Pagain) != len(P) or any(RD.describe(a) != RD.describe(b) for a, b in zip(P, Pagain)):
+            res.violation(ID, 'parse_not_repeatable', case, f'{name}: parsing the same table a second time gives other regions: '
+                                                            f'{[RD.describe(r)["sizes"] for r in P]} then {[RD.describe(r)["sizes"] for r in Pagain]}')
     except Exception as exc:
         res.violation(ID, 'read_raises', case, f'{name}: {type(exc).__name__}: {exc}')
         return
@@ -563,6 +573,9 @@ def list_cases(tier):
                     out.append({'names': list(names), 'inc': 'first_false' if L else 'absent', 'comp': 'absent', 'medium': 'memory', 'insert': [pos, kind]})
                     if L < 2 and pos == 0:
                         out.append({'names': list(names), 'inc': 'first_false' if L else 'absent', 'comp': 'absent', 'medium': 'file_over', 'insert': [pos, kind]})
+                    if L == 2:
+                        # members with given component numbers keep them when a member before / between / after them is skipped
+                        out.append({'names': list(names), 'inc': 'absent', 'comp': 'all', 'medium': 'memory', 'insert': [pos, kind]})
                     if L < 2:
                         for n in (2, 3):
                             out.append({'names': list(names), 'inc': 'first_false' if L else 'absent', 'comp': 'absent', 'medium': 'memory', 'insert': [pos, kind, n]})
